@@ -46,6 +46,7 @@ def acceptor(hist, io):
     codec = refdict.Ref(hist['cfg']).codec
     qs = collections.defaultdict(collections.deque)      # prefix -> deque of (key, value, exp, tag)
     ordinary = {}
+    untracked = set()
     for idx, (op, res) in enumerate(base.results_of(hist, io)):
         m = op['m']
         now = op.get('now', 0)
@@ -96,13 +97,29 @@ def acceptor(hist, io):
                     idx, m, op.get('prefix'), op.get('side'), res[:70], want[:70])
             if m == 'pull':
                 (q.popleft if front else q.pop)()
+        elif m == 'clear':
+            qs.clear()
+            ordinary.clear()
+        elif m == 'evict':
+            for q in qs.values():
+                for it in [it for it in q if op.get('tag') is not None and it[3] == op.get('tag')]:
+                    q.remove(it)
+        elif m in ('expire', 'cull'):
+            for q in qs.values():
+                for it in [it for it in q if it[2] is not None and it[2] < now]:
+                    q.remove(it)
         elif m == 'set':
-            ordinary[refdict.key_canon(op['k'])] = codec.render_val(op['v'])
-        elif m == 'delete':
+            if op.get('ttl') is not None or op.get('tag') is not None:
+                ordinary.pop(refdict.key_canon(op['k']), None)
+                untracked.add(refdict.key_canon(op['k']))      # expiring / tagged ordinary items: judged by the specification run
+            else:
+                untracked.discard(refdict.key_canon(op['k']))
+                ordinary[refdict.key_canon(op['k'])] = codec.render_val(op['v'])
+        elif m in ('delete', 'delitem', 'pop'):
             ordinary.pop(refdict.key_canon(op['k']), None)
         elif m == 'get':
             want = ordinary.get(refdict.key_canon(op['k']), 'D')
-            if res != want:
+            if res != want and refdict.key_canon(op['k']) not in untracked:
                 return 'op #%d ordinary key %r changed by queue operations: got %s want %s' % (idx, op['k'], res[:50], want[:50])
     return None
 
@@ -181,6 +198,49 @@ def exhaustive_small(n_ops):
     return hists
 
 
+QSPEC_ORDINARY = ['a-1', 'zz', b'a', (1, 2), 'a-5-x', 'a-']          # none has the form of a queue key
+
+
+def qspec_history(rng, length):
+    """a history inside the regime of the Lean theorem DC.Cache.qrun_refines_partial: push / pull / peek on
+    any prefix and side mixed with set / get / in / pop / del / delete on ordinary keys and the bulk
+    removals; policy none; either cull_limit 0 (then pushed items may expire) or no ttl on pushes"""
+    cfg = gen.gen_cfg(rng)
+    cfg['mfs'] = rng.choice([8, 16])
+    cfg['policy'] = 'none'
+    cfg['cull'] = rng.choice([0, 0, 10])
+    ttl_ok = cfg['cull'] == 0
+    vals = gen.values(cfg['mfs'])
+    now = 1000
+    ops = []
+    for _ in range(length):
+        now += rng.choice([0, 0, 1, 2])
+        r = rng.random()
+        if r < 0.4:
+            ops.append({'m': 'push', 'now': now, 'v': rng.choice(vals), 'prefix': rng.choice(PREFIXES),
+                        'side': rng.choice(['back', 'back', 'front']),
+                        'ttl': rng.choice([None, None, 2, 0, -1, 50]) if ttl_ok else None, 'tag': rng.choice([None, 't'])})
+        elif r < 0.62:
+            ops.append({'m': 'pull', 'now': now, 'prefix': rng.choice(PREFIXES), 'side': rng.choice(['front', 'front', 'back']),
+                        'et': rng.choice([0, 0, 1]), 'tg': rng.choice([0, 0, 1])})
+        elif r < 0.76:
+            ops.append({'m': 'peek', 'now': now, 'prefix': rng.choice(PREFIXES), 'side': rng.choice(['front', 'back']),
+                        'et': rng.choice([0, 0, 1]), 'tg': rng.choice([0, 0, 1])})
+        elif r < 0.84:
+            ops.append({'m': 'set', 'now': now, 'k': rng.choice(QSPEC_ORDINARY), 'v': rng.choice(vals),
+                        'ttl': rng.choice([None, None, 3]), 'tag': rng.choice([None, 't'])})
+        elif r < 0.94:
+            m = rng.choice(['get', 'contains', 'pop', 'delitem', 'delete'])
+            ops.append({'m': m, 'now': now, 'k': rng.choice(QSPEC_ORDINARY)})
+        else:
+            m = rng.choice(['expire', 'evict', 'cull', 'clear'] if rng.random() < 0.8 else ['clear'])
+            op = {'m': m, 'now': now}
+            if m == 'evict':
+                op['tag'] = 't'
+            ops.append(op)
+    return {'cfg': cfg, 'ops': ops, 'state_every': 0}
+
+
 def run(tier, seed, rng, known, replay):
     if replay:
         return base.replay_file(replay, 'C10', ('result', 'state'), acceptor)
@@ -189,6 +249,24 @@ def run(tier, seed, rng, known, replay):
     hists += [queue_history(rng, 250) for _ in range(m)]
     r = base.check_histories('C10', hists, ('result', 'state'), acceptor=acceptor, known=known)
     dist, distinct = base.op_distribution(hists, r['impl_out'])
+    # the real cache against the Lean queue specification DC.QSpec (the specification side of qrun_refines_partial)
+    n_spec = 150 if tier == 'quick' else 2500
+    shists = [qspec_history(rng, rng.choice([12, 30, 80])) for _ in range(n_spec)]
+    rs = base.check_histories('C10', shists, ('result', 'state'), acceptor=acceptor, known=known)
+    compared, bad = base.against_lean_spec(rs['impl_out'], 'qsop', cfg_head='cfg', undetermined=('clear', 'evict', 'expire', 'cull'))
+    for v_ in rs['violations']:
+        if len(r['violations']) < 4:
+            r['violations'].append(v_)
+    for b in bad[:2]:
+        h = shists[b['history']]
+        what = 'call #%d %s returns %s, the queue specification DC.QSpec returns %s' % (b['op_index'], b['line'][:90], b['impl'][:60], b['spec'][:60])
+        r['violations'].append({'replay': {'property': 'C10', 'kind': 'spec-disagreement', 'cfg': h['cfg'], 'ops': base.tag(h['ops'][:b['op_index'] + 1]),
+                                           'line': b['line'], 'impl': b['impl'], 'spec': b['spec'], 'acceptor': what,
+                                           'spec_part': 'DC.QSpec.step (lean/DC/Model/QSpec.lean); refinement theorem DC.Cache.qrun_refines_partial'},
+                                'found_input': True, 'what': 'property violated on the implementation: ' + what})
+    r['known'] = list(r['known']) + [k for k in rs['known'] if k not in r['known']]
+    hists = hists + shists
+    dist = dict(dist, spec_histories=len(shists), spec_results_compared=compared, spec_disagreements=len(bad))
     # exactly-once under concurrent producers / consumers
     from concurrent.futures import ProcessPoolExecutor
     n_cases = 32 if tier == 'quick' else 128
